@@ -254,6 +254,11 @@ def probe_query(stats: Stats, text, docs, origin, env=None):
         if k2 == "ok" and res:
             evaluated = True
             guarded(stats, "match.pointer", c2, lambda: [str(m.pointer()) for m in res[:5]], ())
+        if di == docs[0]:
+            # the other ways to evaluate a compiled query (same claim: matches or an error of the family)
+            guarded(stats, "evaluate:findall", c2, lambda: path.findall(copy.deepcopy(doc), filter_context=CTX), JSONPathError)
+            guarded(stats, "evaluate:match", c2, lambda: path.match(copy.deepcopy(doc), filter_context=CTX), JSONPathError)
+            guarded(stats, "evaluate:query", c2, lambda: list(path.query(copy.deepcopy(doc), filter_context=CTX)), JSONPathError)
     return "evaluated" if evaluated else "compiled"
 
 
@@ -428,7 +433,12 @@ def t_deep():
         case = {"kind": "pointer", "text": ptr, "origin": "deep-%d" % depth}
         guarded(stats, "pointer.resolve", case, lambda: JSONPointer(ptr).resolve(deep_doc), JSONPointerResolutionError)
         guarded(stats, "evaluate", {"kind": "query", "text": "$..*", "origin": "deep-doc"}, lambda: jsonpath.findall("$..*", deep_doc), JSONPathError)
-    stats.subspaces.append({"name": "nesting depth 20/60/99 of parentheses, negations, nested filters, segments, functions, documents",
+    # the shortest texts there are, on every panel document, through every entry point
+    for text in ["$", "", " ", "$ ", " $", "^", "_", "@", "#", "~", "*", "..", ".", "$.", "$..", "$[", "$]", "[", "]", "$ | $", "$ & $", "^ | ^", "|", "&", "$ |", "| $",
+                 "$[?@]", "$[?$]", "$[?^]", "$[?_]", "$[?#]", "$[?!@]", "$[?@==@]", "$[?$==$]", "$[?^==^]", "$[?_==_]", "$[?#==#]", "$[~]", "^[~]", "$..~", "$.~"]:
+        probe_query(stats, text, list(range(len(PANEL))), "shortest")
+        stats.nt("shortest", text)
+    stats.subspaces.append({"name": "nesting depth 20/60/99 of parentheses, negations, nested filters, segments, functions, documents; 41 shortest texts x panel x entry points",
                             "size": stats.evaluations, "exhaustive": True})
     return stats
 
